@@ -172,21 +172,21 @@ def run(chk: common.Check) -> None:
             if m:
                 oracle_fail.append(({'cancel_caller': r}, m, None))
     # real spawn children, every way of ending incl. a hard exit with a positive status: the protocol seen by a registered plugin
-    rs = [{'statement': 'x = 1\n', 'policy': {'kind': 'all', 'command': 'next'}, 'timeout': 40, 'why': 'return'},
-          {'statement': 'import os, time\ntime.sleep(0.3)\nos._exit(1)\n', 'policy': {'kind': 'all', 'command': 'next'}, 'timeout': 40, 'why': 'os._exit(1)'},
-          {'statement': "raise ValueError('x')\n", 'policy': {'kind': 'all', 'command': 'next'}, 'timeout': 40, 'why': 'raise'},
-          {'statement': 'import time\ntime.sleep(0.2)\nx = 1\n', 'policy': {'kind': 'all', 'command': 'next'}, 'timeout': 40,
+    rs = [{'statement': 'x = 1\n', 'policy': {'kind': 'all', 'command': 'next'}, 'timeout': 90, 'why': 'return'},
+          {'statement': 'import os, time\ntime.sleep(0.3)\nos._exit(1)\n', 'policy': {'kind': 'all', 'command': 'next'}, 'timeout': 90, 'why': 'os._exit(1)'},
+          {'statement': "raise ValueError('x')\n", 'policy': {'kind': 'all', 'command': 'next'}, 'timeout': 90, 'why': 'raise'},
+          {'statement': 'import time\ntime.sleep(0.2)\nx = 1\n', 'policy': {'kind': 'all', 'command': 'next'}, 'timeout': 90,
            'signal': {'kind': 'kill', 'at_prompt': 1}, 'why': 'kill'}]
-    for r in common.real_runs(rs, jobs=4, hard_timeout=90):
+    for r in common.real_runs(rs, jobs=4, hard_timeout=200):
         sp, rec = r['spec'], r['rec']
         chk.cov.case(('real', sp['why']))
         chk.cov.count('kinds', 'real-child-' + sp['why'])
         if rec is None or not rec.get('finished'):
             sig = None
             from .c02 import lock_held_by_dead_child
-            if sp['why'] == 'os._exit(1)' and lock_held_by_dead_child(rec):
+            if sp['why'] in ('os._exit(1)', 'kill') and lock_held_by_dead_child(rec):
                 sig = 'child_died_holding_queue_write_lock'     # open finding F-G3 (≈ 1 hard exit in 6 hangs), recognised by the parent's stacks
-            oracle_fail.append(({'real_run': sp}, [f'real run did not finish: {(rec or {}).get("errors")}'], sig))
+            oracle_fail.append(({'real_run': sp}, [f"real run ending by {sp['why']} did not finish: {(rec or {}).get('errors')}"], sig))
             continue
         word = ''.join({'on_initialize_run': 'I', 'on_start_run': 'S', 'on_end_run': 'E', 'on_finished': 'F'}.get(h['hook'], 'p' if h['hook'].startswith('on_') else '')
                        for h in rec['hooks'])
